@@ -1,7 +1,7 @@
 """./check EXTRAS - specification modules beyond the listed properties, each bound to the code the same way:
 Atmo.tla (humidity setter, vacuum, altitude-query branch), Results.tla (HitResult.zeros / flag helpers / TrajFlag.name),
 ConfigLoad.tla (which config file basicConfig loads; argument combinations), VectorAlg.tla (Vector algebra).
-Not registered in MANIFEST.json (no listed property is decided here); evidence goes to evidence/EXTRAS.json."""
+Not registered in MANIFEST.json (no listed property is decided here); evidence goes to evidence_beyond_listed/EXTRAS.json."""
 from __future__ import annotations
 
 import math
